@@ -14,6 +14,7 @@ import (
 	"os/exec"
 	"path/filepath"
 	"runtime"
+	"strings"
 	"syscall"
 	"unsafe"
 )
@@ -27,15 +28,19 @@ type Fault struct {
 }
 
 type Spec struct {
-	Argv    []string          `json:"argv"`
-	Dir     string            `json:"dir"`
-	Env     []string          `json:"env"`
-	Stdin   string            `json:"stdin,omitempty"` // file names; empty = /dev/null
-	Stdout  string            `json:"stdout,omitempty"`
-	Stderr  string            `json:"stderr,omitempty"`
-	Watch   map[string]string `json:"watch"` // target name → absolute path
-	Faults  []Fault           `json:"faults"`
-	MaxCall int               `json:"max_calls,omitempty"`
+	Argv   []string          `json:"argv"`
+	Dir    string            `json:"dir"`
+	Env    []string          `json:"env"`
+	Stdin  string            `json:"stdin,omitempty"` // file names; empty = /dev/null
+	Stdout string            `json:"stdout,omitempty"`
+	Stderr string            `json:"stderr,omitempty"`
+	Watch  map[string]string `json:"watch"` // target name → absolute path
+	// StdinPipe: feed the file named by Stdin through a pipe in chunks of this
+	// many bytes (reads then return short counts, as on a terminal or a slow
+	// producer); reads on descriptor 0 are attributed to target "src".
+	StdinPipe int     `json:"stdin_pipe,omitempty"`
+	Faults    []Fault `json:"faults"`
+	MaxCall   int     `json:"max_calls,omitempty"`
 }
 
 type Injected struct {
@@ -123,6 +128,29 @@ func Run(sp *Spec) (*Result, error) {
 		return nil, err
 	}
 	defer in.Close()
+	var pipeW *os.File
+	if sp.StdinPipe > 0 && sp.Stdin != "" {
+		data, err := os.ReadFile(sp.Stdin)
+		if err != nil {
+			return nil, err
+		}
+		pr, pw, err := os.Pipe()
+		if err != nil {
+			return nil, err
+		}
+		in.Close()
+		in, pipeW = pr, pw
+		go func() {
+			defer pw.Close()
+			for len(data) > 0 {
+				n := min(sp.StdinPipe, len(data))
+				if _, err := pw.Write(data[:n]); err != nil {
+					return
+				}
+				data = data[n:]
+			}
+		}()
+	}
 	out, err := open(sp.Stdout, os.O_WRONLY|os.O_CREATE|os.O_TRUNC)
 	if err != nil {
 		return nil, err
@@ -165,6 +193,9 @@ func Run(sp *Spec) (*Result, error) {
 		p, err := os.Readlink(fmt.Sprintf("/proc/%d/fd/%d", pid, fd))
 		if err != nil {
 			return ""
+		}
+		if pipeW != nil && fd == 0 && strings.HasPrefix(p, "pipe:") {
+			return "src"
 		}
 		return byPath[filepath.Clean(p)]
 	}
